@@ -302,11 +302,11 @@ package db
 // vector's own maximum as floor: see [version-floor] in the documentUpdateFunc block of zz_verif_c11.go), it is added to
 // the document's own vector through AddVersion (which refuses a value below the recorded one: AddVersion/post/rejected,
 // not-lower), and a refusal fails the update. No other event adds an entry under this node's HLC.
-// Call numbering (SSA block order): AddVersion#1 = NewVersion/ExistingVersionWithUpdateToHLV, #2 = Import, #3 = ExistingVersionLegacyRev.
+// Call numbering (source order): AddVersion#1 = Import, #2 = NewVersion/ExistingVersionWithUpdateToHLV, #3 = ExistingVersionLegacyRev.
 //@ func DatabaseCollectionWithUser.updateHLV
 //@   modifies *
 //@   only-contracts none
-//@   propagates AddVersion#1
+//@   propagates AddVersion#2
 //@   before[stamps-generated]  call AddVersion (docUpdateEvent == NewVersion || docUpdateEvent == ExistingVersionWithUpdateToHLV) ==> $1.SourceID == db.dbCtx.EncodedSourceID && $1.Value == generatedVersion && $0 == d.HLV && $0 != nil
-//@   ensures[generated-added]  (docUpdateEvent == NewVersion || docUpdateEvent == ExistingVersionWithUpdateToHLV) && isNilErr(result1) ==> called(AddVersion, 1)
-//@   ensures[generated-only]   (docUpdateEvent == NewVersion || docUpdateEvent == ExistingVersionWithUpdateToHLV) ==> !called(AddVersion, 2) && !called(AddVersion, 3)
+//@   ensures[generated-added]  (docUpdateEvent == NewVersion || docUpdateEvent == ExistingVersionWithUpdateToHLV) && isNilErr(result1) ==> called(AddVersion, 2) && isNilErr(callres(AddVersion, 2, 0))
+//@   ensures[generated-only]   (docUpdateEvent == NewVersion || docUpdateEvent == ExistingVersionWithUpdateToHLV) ==> !called(AddVersion, 1) && !called(AddVersion, 3)
